@@ -158,6 +158,7 @@ def run(ctx, impl_only=False):
                         ctx.violate(case, 'structurally equal values gave a non-empty diff')
     numpy_pairs(ctx)
     align_sound(ctx)
+    local_zone(ctx)
     if not impl_only:
         FAM.compare_with_model(ctx, reqs)
     wit = {'F5e': lambda: bool(DeepDiff({'NONE'}, {None})),
@@ -169,6 +170,60 @@ def run(ctx, impl_only=False):
             (ctx.known_not_reproduced if ok else ctx.known_reproduced).append(fid if ok else '%s: %s' % (fid, findings[fid]['what_fails']))
         elif not ok:
             ctx.violate({'witness': fid}, 'boundary witness %s fails and is not a listed finding' % fid)
+
+
+ZONE_SCRIPT = r'''
+import os, sys, json, time
+os.environ['TZ'] = %r
+time.tzset()
+sys.path.insert(0, %r)
+import datetime
+from deepdiff import DeepDiff
+out = []
+for a, b, cfg in json.loads(sys.stdin.read()):
+    x, y = eval(a), eval(b)
+    try:
+        d = DeepDiff(x, y, **cfg)
+        out.append([bool(d), x == y])
+    except Exception as e:
+        out.append(['raised ' + type(e).__name__, x == y])
+print(json.dumps(out))
+'''
+
+
+def local_zone(ctx):
+    """naive datetimes are compared as written, whatever the zone of the process: in interpreters whose local zone has daylight saving
+    (POSIX rules, no zone database needed), pairs of naive datetimes around the hour that is skipped / repeated when the clocks change
+    -- which a conversion through the local zone would merge -- still give an empty diff exactly when they are equal"""
+    import json, subprocess
+    zones = ['EST5EDT,M3.2.0,M11.1.0', 'CET-1CEST,M3.5.0,M10.5.0/3'] + (['AEST-10AEDT,M10.1.0,M4.1.0/3', 'UTC0'] if ctx.thorough() else [])
+    walls = ['datetime.datetime(2021, 3, 14, 2, 30)', 'datetime.datetime(2021, 3, 14, 3, 30)', 'datetime.datetime(2021, 3, 14, 2, 0)', 'datetime.datetime(2021, 3, 14, 3, 0)',
+             'datetime.datetime(2021, 3, 28, 2, 30)', 'datetime.datetime(2021, 3, 28, 3, 30)', 'datetime.datetime(2021, 11, 7, 1, 30)', 'datetime.datetime(2021, 11, 7, 1, 30, fold=1)',
+             'datetime.datetime(2021, 10, 31, 2, 30)', 'datetime.datetime(2021, 10, 3, 2, 30)', 'datetime.datetime(2021, 10, 3, 3, 30)', 'datetime.datetime(2021, 6, 1, 12, 0)']
+    wraps = ['%s', '[%s]', "{'k': %s}", '(%s, 1)', '{%s}', 'frozenset([%s])', "[1, {'a': [%s]}]"]
+    cfgs = [{}, {'ignore_order': True}, {'view': 'tree'}, {'verbose_level': 2}, {'truncate_datetime': 'second'}]
+    jobs = []
+    for i, a in enumerate(walls):
+        for b in walls[i:]:
+            w = wraps[(len(jobs) + ctx.rng.randrange(len(wraps))) % len(wraps)]
+            jobs.append([w % a, w % b, cfgs[ctx.rng.randrange(len(cfgs))]])
+    for tz in zones:
+        p = subprocess.run(['/venv/bin/python', '-c', ZONE_SCRIPT % (tz, core.REPO)], input=json.dumps(jobs), capture_output=True, text=True, timeout=600)
+        if p.returncode != 0:
+            raise core.ToolFailure('zone subprocess failed: ' + p.stderr[-300:])
+        res = json.loads(p.stdout.strip().split('\n')[-1])
+        for (a, b, cfg), (nonempty, equal) in zip(jobs, res):
+            ctx.evaluations += 1
+            ctx.count('local_zone:' + tz.split(',')[0])
+            case = {'t1': a, 't2': b, 'cfg': cfg, 'clause': 'naive datetimes in a process with local zone TZ=' + tz}
+            if not equal:
+                ctx.nontriv((a, b, repr(sorted(cfg.items())), tz))
+            if isinstance(nonempty, str):
+                ctx.violate(case, 'DeepDiff %s' % nonempty)
+            elif not nonempty and not equal:
+                ctx.violate(case, 'empty diff although t1 != t2')
+            elif nonempty and equal and a == b:
+                ctx.violate(case, 'a value compared with itself gave a non-empty diff')
 
 
 def numpy_pairs(ctx):
